@@ -482,7 +482,8 @@ pub fn check(c: &Case) -> Outcome {
     if let Err(p) = sres {
         return Outcome::viol(format!("solve panicked: {}", crate::util::panic_msg(&p)));
     }
-    if a != a_before || ai != ai_before || ip != ip_before {
+    // (bit comparison: the factors of a numerically singular matrix may contain NaN, and NaN != NaN)
+    if !crate::util::bits_eq(&a.data, &a_before.data) || !crate::util::bits_eq(&ai.data, &ai_before.data) || ip != ip_before {
         return Outcome::viol("factor matrix or pivot vector modified by the solve".to_string());
     }
     if !xr.iter().all(|v| v.is_finite()) || (c.complex && !xi.iter().all(|v| v.is_finite())) {
